@@ -23,6 +23,10 @@ func c06Scenarios(tier string) []*hist.Scenario {
 		{"txt", []string{"init.t"}, []string{"t.insM", "t.delF", "t.styF"}},
 		{"cnt", []string{"init.c"}, []string{"c.inc1"}},
 		{"tree", []string{"init.tr"}, []string{"tr.insT1", "tr.delP0", "tr.sty0"}},
+		// changes that carry a presence change together with operations, next to
+		// presence-only and operations-only ones (seeded change C06-2: the two
+		// sites that decide a change's clock disagreed only for the mixed kind)
+		{"mix", []string{"init.o"}, []string{"p.set1+o.set1", "o.set1", "p.set1"}},
 	}
 	mk := func(f family, al []string, tag string, n, late, k, y, d, maxPer int, cfg hist.Config) {
 		name := fmt.Sprintf("c06/%s/%s/%sN%dL%dK%dY%dD%d", f.name, strings.Join(al, "+"), tag, n, late, k, y, d)
@@ -57,6 +61,14 @@ func c06Scenarios(tier string) []*hist.Scenario {
 		if i < 3 || tier == "thorough" {
 			mk(f, f.ops[:1], "", 2, 1, 2, 2, 1, 0, never)
 		}
+	}
+	// changes made by undo / redo carry clocks like any other change
+	for i, f := range fams {
+		if i >= 4 {
+			break
+		}
+		name := fmt.Sprintf("c06/%s/%s/undoN2K2U2Y3", f.name, f.ops[0])
+		out = append(out, &hist.Scenario{Name: name, N: 2, Init: f.init, Alphabet: f.ops[:1], K: 2, U: 2, Y: 3, Cfg: never})
 	}
 	if tier == "quick" {
 		return out
